@@ -127,6 +127,19 @@ func lockCall(s ast.Stmt) (recv ast.Expr, name string, call *ast.CallExpr) {
 	return sel.X, sel.Sel.Name, c
 }
 
+// addressable: a plain identifier or a chain of field selections on one.
+func addressable(e ast.Expr) bool {
+	switch x := e.(type) {
+	case *ast.Ident:
+		return true
+	case *ast.SelectorExpr:
+		return addressable(x.X)
+	case *ast.ParenExpr:
+		return addressable(x.X)
+	}
+	return false
+}
+
 func instrumentFile(path, base string) ([]byte, int, error) {
 	src, err := os.ReadFile(path)
 	if err != nil {
@@ -149,8 +162,19 @@ func instrumentFile(path, base string) ([]byte, int, error) {
 				if name == "RLock" {
 					try = "TryRLock"
 				}
+				// the mutex's identity (its address) lets the simulator give
+				// sync.RWMutex its writer preference: once a writer waits, new readers
+				// wait too - which is what makes a recursive read lock deadlock
+				id := "nil"
+				if addressable(recv) {
+					id = "&" + r
+				}
+				wrap := "verifTryW"
+				if name == "RLock" {
+					wrap = "verifTryR"
+				}
 				sp = append(sp, splice{off(call.Pos()), off(call.End()),
-					fmt.Sprintf("verifLock(%s.%s, %s.%s, %q)", r, try, r, name, label)})
+					fmt.Sprintf("verifLock(%s(%s, %s.%s), %s.%s, %q)", wrap, id, r, try, r, name, label)})
 				continue
 			}
 			if stmtHead(s) {
@@ -197,6 +221,40 @@ func verifLock(try func() bool, lock func(), point string) {
 		return
 	}
 	lock()
+}
+
+// VerifPending keeps, per mutex, the number of writers that are waiting for it
+// (op +1 / -1; op 0 asks whether any is). The simulator acquires mutexes with
+// TryLock / TryRLock, which know nothing of waiting writers; sync.RWMutex,
+// however, makes new readers wait behind a waiting writer.
+var VerifPending func(id any, op int) bool
+
+// verifTryR: a reader does not get in while a writer waits for the same mutex.
+func verifTryR(id any, try func() bool) func() bool {
+	return func() bool {
+		if fn := VerifPending; fn != nil && id != nil && fn(id, 0) {
+			return false
+		}
+		return try()
+	}
+}
+
+// verifTryW: a writer that does not get in is a waiting writer until it does.
+func verifTryW(id any, try func() bool) func() bool {
+	waiting := false
+	return func() bool {
+		ok := try()
+		if fn := VerifPending; fn != nil && id != nil {
+			if ok && waiting {
+				fn(id, -1)
+				waiting = false
+			} else if !ok && !waiting {
+				fn(id, +1)
+				waiting = true
+			}
+		}
+		return ok
+	}
 }
 
 // VerifGoTop is consulted by the outermost deferred call of every goroutine the
